@@ -26,6 +26,8 @@ FINGERPRINTS = [
                                               "_store_function_calls", "_store_comparisons", "_store_typescript_results"]),
     ("src/cli/linters/shared.py", ["run_linter_command"]),
     ("src/cli/utils.py", ["handle_linting_error"]),
+    ("src/analyzers/typescript_base.py", ["walk_tree", "_walk_tree_recursive"]),
+    ("src/analyzers/rust_base.py", ["walk_tree", "_walk_tree_recursive"]),
 ]
 
 
@@ -294,6 +296,27 @@ def parallel_shape():
     return defn("par_parent_collects", "bool", "true" if collects else "false")
 
 
+def walker_shape():
+    """_walk_tree_recursive of both tree-sitter base analyzers: test the node, then one self-call per child (no explicit stack)"""
+    out = []
+    for rel, cls in (("src/analyzers/typescript_base.py", "TypeScriptBaseAnalyzer"), ("src/analyzers/rust_base.py", "RustBaseAnalyzer")):
+        f = find_func(find_class(parse(rel), cls), "_walk_tree_recursive")
+        b = _body(f)
+        if len(b) != 2:
+            raise Unsupported(f"{rel}: {len(b)} statements")
+        if ast.unparse(b[0]) != "if node.type == node_type:\n    nodes.append(node)":
+            raise Unsupported(f"{rel}: first statement " + ast.unparse(b[0])[:60])
+        loop = b[1]
+        if not (isinstance(loop, ast.For) and ast.unparse(loop.iter) == "node.children" and len(loop.body) == 1
+                and ast.unparse(loop.body[0]) == "self._walk_tree_recursive(child, node_type, nodes)"):
+            raise Unsupported(f"{rel}: loop shape")
+        w = find_func(find_class(parse(rel), cls), "walk_tree")
+        if "self._walk_tree_recursive(node, node_type, nodes)" not in ast.unparse(w) or any(isinstance(n, ast.Try) for n in ast.walk(w)):
+            raise Unsupported(f"{rel}: walk_tree shape")
+        out.append(True)
+    return defn("walker_recursive", "bool", "true" if all(out) else "false")
+
+
 def cli_error_exit():
     f = find_func(parse("src/cli/utils.py"), "handle_linting_error")
     exits = [n for n in ast.walk(f) if isinstance(n, ast.Call) and ast.unparse(n.func) == "sys.exit"]
@@ -438,6 +461,7 @@ ITEMS = [
     ("execute_rules_shape", execute_rules_shape),
     ("finalize_guards", finalize_guards),
     ("parallel_shape", parallel_shape),
+    ("walker_shape", walker_shape),
     ("cli_error_exit", cli_error_exit),
     ("dry_steps", dry_steps),
     ("stringly_steps", stringly_steps),
